@@ -188,7 +188,8 @@ def _message_class(ctx, R, T):
     for i, (nm, w) in enumerate(want):
         got = t[2][1 + i]
         if nm == "data_check":
-            alts = set(got[1]) if got[0] == "phi" else {got}
+            from ..terms import alts_of
+            alts = alts_of(got)
             good = {("MOD32", ("BYTESUM", P("data")))}
             legacy = {("MOD32", ("ORDSUM", P("data")))}      # str / py2 branches of checksum()
             ok = bool(alts & good) and alts <= (good | legacy)
@@ -284,15 +285,26 @@ def _checksum_branches(ctx, R, T, ck):
     n_good = 0
     for rn in rets:
         t = T.term(ck, rn, rn.ast.value)
-        alts = set(t[1]) if t[0] == "phi" else {t}
+        from ..terms import alts_of
+        alts = alts_of(t)
         yes, no = isinstance_knowledge(ctx, ck, rn, dk)
         py2 = any("bytes" in s or "str" in s for s in isinstance_knowledge(ctx, ck, rn, d0)[0])
         not_bytes_like = {"bytes", "bytearray"} <= no
         bytes_like = any(s <= {"bytes", "bytearray"} for s in yes)
         sub = ck.qualname + "|" + norm_stmt(rn.ast) + ("|bytes-like" if bytes_like else "|other" if (not_bytes_like or py2) else "")
-        if len(alts) == 1:
-            ok = t == good or (t == legacy and (not_bytes_like or py2))
-            n_good += 1 if t == good else 0
+        if t[0] != "phi":
+            def ok_term(x, allow_legacy):
+                if x == good:
+                    return True
+                if x == legacy:
+                    return allow_legacy
+                if x[0] == "ite":
+                    # the Python 2 test `data and isinstance(data[0], bytes)` selects the ord() sum
+                    is_py2 = "builtins.isinstance" in repr(x[1]) and "('proj', ('p', %r), 0)" % data in repr(x[1]) and "'or'" not in repr(x[1])
+                    return ok_term(x[2], allow_legacy or is_py2) and ok_term(x[3], allow_legacy)
+                return False
+            ok = ok_term(t, not_bytes_like or py2)
+            n_good += 1 if good in alts else 0
             R.check(ok, "TERM-checksum", sub, "checksum = byte sum mod 2^32 (ord() sum only for non-bytes input)",
                     "checksum() returns %s%s, expected MOD32(BYTESUM(data))" % (show(t), " for bytes/bytearray input" if bytes_like else ""), ck.loc(rn.ast))
         else:
